@@ -279,6 +279,9 @@ def e_nested_containers(doc, rnd):
         prop("verifPairs", arr({"kind": "tuple", "items": [U, U]}), True),
         prop("verifMapOfMaps", {"kind": "map", "key": S, "value": {"kind": "map", "key": S, "value": B}}, True),
         prop("verifNullableList", orn(arr(S)), True),
+        prop("verifNullableNames", arr(orn(S)), True),
+        prop("verifNullableCounts", {"kind": "map", "key": S, "value": orn(I)}, True),
+        prop("verifNullablePair", {"kind": "tuple", "items": [U, orn(S)]}, True),
     ]
 
 
